@@ -1,6 +1,7 @@
 package main
 
 import (
+	"encoding/hex"
 	"fmt"
 	"strings"
 )
@@ -111,6 +112,7 @@ func genCluster(c *Ctx) error {
 	if !c.Flag("journal") {
 		directedSnapshotRace(c)
 		directedShrinkGrowCatchUp(c)
+		directedFilteredDatabases(c)
 	}
 	for h := 0; h < nHist+len(directed); h++ {
 		var script []string
@@ -509,4 +511,54 @@ func directedShrinkGrowCatchUp(c *Ctx) {
 			cs.End()
 		}
 	}
+}
+
+// directedFilteredDatabases: besides "db" the primary has further databases, some with characters
+// in their names that are special in URLs; one replica replicates everything, one is configured
+// to replicate a subset (Store.DatabaseFilter).  Every replica reaches the primary's position of
+// every database it is configured for — at join and after later commits — and of no other.
+func directedFilteredDatabases(c *Ctx) {
+	r := c.Rng
+	cs := c.Begin()
+	do := func(op string) string { c.Count("op." + strings.Fields(op)[0]); return cs.Do(op) }
+	hx := func(s string) string { return hex.EncodeToString([]byte(s)) }
+	names := []string{"plain.db", "user data.db", "a+b&c.db", "100%.db", "scratch.db"}
+	do("cluster 3")
+	do("filter 2 " + strings.Join([]string{hx("db"), hx("plain.db"), hx("user data.db"), hx("a+b&c.db"), hx("100%.db")}, ","))
+	do("allow 0")
+	do("up 0")
+	do("sync")
+	img := func() string {
+		v := newVPrimary(r, 512)
+		v.commit(r.Range(1, 3), map[int]bool{})
+		return v.tok0()
+	}
+	do("n 0 import " + img())
+	for _, n := range names {
+		if out := do("xdb 0 " + hx(n) + " " + img()); out != "ok" {
+			c.Fail("filtered databases: transaction on " + n + " refused: " + out)
+		}
+	}
+	do("up 1")
+	do("up 2")
+	do("sync")
+	check := func(what string) {
+		if out := do("xdb-check"); out != "ok" {
+			c.Fail("filtered databases (" + what + "): " + out)
+		}
+	}
+	check("after joining")
+	for round := 0; round < 2; round++ {
+		for _, n := range names {
+			do("xdb 0 " + hx(n) + " " + img())
+		}
+		do("sync")
+		check(fmt.Sprintf("after round %d of commits", round+1))
+	}
+	do("n 0 state")
+	do("n 1 state")
+	do("n 2 state")
+	cs.End()
+	c.Count("directed.filtered-databases")
+	c.Nontrivial("filtered-databases")
 }
